@@ -81,8 +81,8 @@ func (e *Exec) locksetAccess(st *State, f *Frame, addr ssa.Value, p Ptr, val Val
 	if gk, ok := f.guarded[addr]; ok {
 		i := strings.Index(gk, "|")
 		key, what = gk[:i], gk[i+1:]
-		// objects reachable through the guarded field inherit the guard
-		if obj := valueObj(val); obj != 0 {
+		// objects reachable through the guarded field inherit the guard (unless declared immutable snapshots)
+		if obj := valueObj(val); obj != 0 && !e.shallowField(what) {
 			if st.guardOf == nil {
 				st.guardOf = map[int]string{}
 			}
@@ -99,6 +99,16 @@ func (e *Exec) locksetAccess(st *State, f *Frame, addr ssa.Value, p Ptr, val Val
 	}
 	if e.inHarnessCode(f) || st.held[key] || st.tolerant > 0 {
 		return
+	}
+	if g := e.ob.guards[strings.SplitN(strings.TrimPrefix(what, "object reached through "), ".", -1)[0]]; g != nil {
+		_ = g
+	}
+	for _, gd := range e.ob.Guards {
+		for _, ex := range gd.ExceptFuncs {
+			if f.fn != nil && f.fn.String() == ex {
+				return
+			}
+		}
 	}
 	if fn, ok := st.allocFn[p.obj]; ok && fn == f.fn {
 		return // constructor: the object has not been published yet
@@ -136,4 +146,15 @@ func (e *Exec) pathModel(st *State) Model {
 		return Model{}
 	}
 	return m
+}
+
+func (e *Exec) shallowField(what string) bool {
+	for _, g := range e.ob.Guards {
+		for _, f := range g.Shallow {
+			if what == g.Type+"."+f {
+				return true
+			}
+		}
+	}
+	return false
 }
